@@ -7,7 +7,7 @@ import random
 from vf import cluster as C
 from vf import txn_sim as T
 
-ALPHABET = ["begin", "send:0", "send:1", "offsets:7", "commit", "abort", "ctx_ok:0", "ctx_exc:0", "ctx_slow:1"]
+ALPHABET = ["begin", "send:0", "send:1", "offsets:7", "commit", "abort", "ctx_ok:0", "ctx_exc:0", "ctx_slow:1", "ctx_slow_exc:1"]
 
 
 def c16_faults():
@@ -44,7 +44,7 @@ def c07_program(rng: random.Random, tier="quick"):
     for ti in range(n_txn):
         use_ctx = rng.random() < 0.15
         if use_ctx:
-            prog.append(rng.choice(["ctx_ok:0", "ctx_ok:1", "ctx_exc:0", "ctx_slow:2"]))
+            prog.append(rng.choice(["ctx_ok:0", "ctx_ok:1", "ctx_exc:0", "ctx_slow:2", "ctx_slow_exc:2"]))
             continue
         prog.append("begin")
         for _ in range(rng.randint(0, 5)):
